@@ -33,6 +33,8 @@ package explain
 //@     invariant keep:  old(agreesU(A, pb.units)) && H(pb, A) ==> agreesU(A, pb.units)
 //@     invariant mono:  forall(i, 0, pb.NbClauses, old(pb.tagged[i]) ==> pb.tagged[i])
 //@     invariant tri:   tri(pb.units)
+//@   assert body-end 2 hmono: H(pb, A) ==> prev(H(pb, A))
+//@   assert body-end 2 hkeep: old(agreesU(A, pb.units)) && H(pb, A) ==> prev(agreesU(A, pb.units))
 //@   loop 3
 //@     invariant idx:   0 <= rangei && rangei <= len(clause)
 //@     invariant nsat:  !sat
